@@ -228,4 +228,84 @@ def runWorkflows (fixed : Bool) (name : String) : WSt → List (List String) →
     | .error e => .error e
     | .ok (w', _, _) => runWorkflows fixed name w' rest
 
+/-! ### durability: what a process death leaves behind
+
+`rollback_handle` issues its `UPDATE … SET is_valid = 0` and returns without committing; the change becomes durable
+with the next `session.commit()` of the backend (`advance_handle`, `record_job_start`, … all end with one).
+`ses` is the database as the backend's session sees it, `dur` what a fresh connection — or the next process,
+after this one died — sees. -/
+structure DB where
+  ses : St HT
+  dur : St HT
+  deriving Repr
+
+def DB.commit (d : DB) : DB := ⟨d.ses, d.ses⟩
+/-- the process dies: everything not yet committed is lost -/
+def DB.crash (d : DB) : DB := ⟨d.dur, d.dur⟩
+/-- `advance_handle` ends with `session.commit()` -/
+def DB.advance (fixed : Bool) (d : DB) (ps : List (Parent HT)) (c : HRef HT) : DB :=
+  DB.commit ⟨d.ses.advance fixed ps c, d.dur⟩
+/-- `rollback_handle` does not commit -/
+def DB.rollback (fixed : Bool) (d : DB) (h : HRef HT) : Except Err DB :=
+  match d.ses.rollback fixed h with
+  | .ok s => .ok ⟨s, d.dur⟩
+  | .error e => .error e
+
+/-- `_exec_job_main_thread` from the cache miss to the moment the task function is entered.
+`early = true` is the code's order: `_perform_rollbacks`, (limits), `record_job_start` — which commits —, submit.
+`early = false` is the other order (`record_job_start` first, `_perform_rollbacks` right before the submit): the
+task then starts with the rollback still pending. -/
+def enterTask (fixed early : Bool) (d : DB) (f : HRef HT) : Except Err DB :=
+  if early then
+    match d.rollback fixed f with
+    | .ok d' => .ok d'.commit
+    | .error e => .error e
+  else d.commit.rollback fixed f
+
+/-- The job of `runTask`, but the process dies right after the task function was entered and made its first write
+to the external system (`ext`).  Returns what the next process finds, and whether the task had started (on a
+cache hit there is nothing to kill). -/
+def crashTask (fixed early : Bool) (k : String) (w : WSt) (depth : Nat) (t : String) (v : HT) : Except Err (WSt × Bool) :=
+  let f := HT.fork v k
+  let d1 := DB.advance fixed ⟨w.st, w.st⟩ [⟨v.ref, true, []⟩] f.ref
+  let r := HT.call f t
+  if (t, f) ∈ w.cache ∧ d1.ses.isValid r = true then .ok ({ w with st := d1.dur }, false)
+  else
+    match enterTask fixed early d1 f.ref with
+    | .error e => .error e
+    | .ok d2 => .ok ({ st := d2.crash.dur, cache := w.cache, ext := w.ext.take depth ++ [t] }, true)
+
+/-- a chain execution whose process dies in the task at position `cd` (if that task runs at all) -/
+def runChainCrash (fixed early : Bool) (k : String) : WSt → Nat → List String → HT → Nat → Except Err WSt
+  | w, _, [], _, _ => .ok w
+  | w, depth, t :: ts, v, 0 =>
+    match crashTask fixed early k w depth t v with
+    | .error e => .error e
+    | .ok (w', true) => .ok w'
+    | .ok (w', false) =>
+      match runChain fixed k w' (depth + 1) ts (HT.call (HT.fork v k) t) [] with
+      | .error e => .error e
+      | .ok (w'', _, _) => .ok w''
+  | w, depth, t :: ts, v, cd + 1 =>
+    match runTask fixed k w depth t v with
+    | .error e => .error e
+    | .ok (w', r, _) => runChainCrash fixed early k w' (depth + 1) ts r cd
+
+/-- an execution of a history: completes, or is killed in its `cd`-th task -/
+inductive Exec where
+  | ok (tasks : List String)
+  | killed (tasks : List String) (cd : Nat)
+  deriving Repr
+
+def runExecs (fixed early : Bool) (name : String) : WSt → List Exec → Except Err WSt
+  | w, [] => .ok w
+  | w, .ok ts :: rest =>
+    match runWorkflow fixed w name ts with
+    | .error e => .error e
+    | .ok (w', _, _) => runExecs fixed early name w' rest
+  | w, .killed ts cd :: rest =>
+    match runChainCrash fixed early "1" w 0 ts (.init name) cd with
+    | .error e => .error e
+    | .ok w' => runExecs fixed early name w' rest
+
 end RedunModel.Handles
